@@ -525,6 +525,18 @@ func mapIsMade(v ssa.Value, seen map[ssa.Value]bool) (bool, string) {
 		if fv, ok := x.X.(*ssa.FreeVar); ok {
 			return true, "captured map variable " + fv.Name() + " (made by the enclosing function; checked there)"
 		}
+		// a map-typed field of a row the function was handed (receiver or parameter, possibly captured): as for a map
+		// parameter, the callers build the rows with made maps (LoadDeviceConfigs creates all four, R12.2)
+		if fa, ok := x.X.(*ssa.FieldAddr); ok {
+			base := fa.X
+			if ld, isLd := base.(*ssa.UnOp); isLd && ld.Op == token.MUL {
+				base = ld.X
+			}
+			switch base.(type) {
+			case *ssa.Parameter, *ssa.FreeVar:
+				return true, "map field of a row handed to the function (rows are built with made maps: R12.2)"
+			}
+		}
 		// a map-typed field of a local struct that is built in place (`km := T{M: make(..)}; km.M[k] = v`): every store
 		// into that field of that variable is a made map, at least one of them dominates the load, and the variable's
 		// address goes nowhere but into field accesses and whole loads
